@@ -252,6 +252,27 @@ def run(ctx):
     warm = chain.Tree(rng, chain.Keys(rng, 3))
     warm.grow(8, fork_prob=0.4)
     res.count("other_chain_validated_first", len(warm.blocks))
+    # a node that has been running for a while follows the chain as it grows: a freshly mined valid block whose timestamp is the
+    # node's clock — later than the moment this process started by far more than the 30 s a timestamp may lie ahead — is
+    # broadcast by a peer and must be adopted
+    import time as _time
+    from . import node as _node
+    fresh = chain.Tree(rng, chain.Keys(rng, 3))
+    fb = fresh.extend(dt=int(_time.time()) - fresh.blocks[0].timestamp + 200000 + rng.randrange(0, 10 ** 6), n_tx=0)
+    fb2 = fresh.extend(fb.hash(), dt=61, n_tx=0)
+    rn_ = _node.RealNode(CoinState.empty().add_block_no_validation(fresh.blocks[0]), [])
+    rn_.add_peer(active=True)
+    for blk_ in (fb, fb2):
+        _node.CLOCK[0] = blk_.timestamp + 2
+        rn_.deliver_block(0, blk_, 0)
+        res.case(("fresh-block", blk_.hash()), nontrivial=True)
+        if rn_.cm.coinstate.current_chain_hash != blk_.hash():
+            res.violations.append({"kind": "a freshly mined valid block (timestamp 2 s behind the node's clock, which is far later than "
+                                           "the moment the node was started) broadcast by a peer was not adopted: the node no longer "
+                                           "follows the chain", "block": blk_.serialize().hex(), "clock": _node.CLOCK[0]})
+            break
+    rn_.close()
+    res.count("fresh_blocks_delivered_to_a_long_running_node", 2)
     # full validation, horizon disabled, real scrypt
     lines = chain.patch(horizon=-1, scrypt=False)
     real = CoinState.empty().add_block_no_validation(g)
